@@ -13,7 +13,7 @@
    config types) is a separate engine of lib/props.d/C16.json. *)
 From Coq Require Import List NArith ZArith.
 From Dials Require Import Base.Outcome Base.Runes Text.CaseConv Text.GoCamelFacts Text.ParseInt Text.Quote
-  Text.Split Text.ParseString Text.NoPanicProofs.
+  Text.Split Text.ParseString Text.CasePipeline Text.NoPanicProofs.
 Import ListNotations.
 
 (* ---- tagformat/caseconversion: the eight decoders ---- *)
@@ -36,6 +36,16 @@ Proof. exact decode_go_tags_total_l. Qed.
 (* extractInitialisms' outer loop terminates for the source's current list *)
 Theorem extract_initialisms_terminates : forall s, extract_initialisms s <> None.
 Proof. exact extract_total. Qed.
+
+(* ---- the six encoders (total functions words -> str; encode_by e, decode_by d
+   address them by number): every word list - empty words and the empty list
+   included - is encoded to a string on which every decoder is total, and the
+   decode -> encode -> decode pipelines of the tag manglers are total on every
+   rune list ---- *)
+Theorem encode_then_decode_total : forall e d ws, total (decode_by d (encode_by e ws)).
+Proof. exact encode_then_decode_total_l. Qed.
+Theorem pipeline_total : forall d1 e d2 s, total (pipeline d1 e d2 s).
+Proof. exact pipeline_total_l. Qed.
 
 (* ---- parse: numbers, quoting ---- *)
 Theorem parse_number_int_total : forall w s, total (parse_number_int w s).
@@ -80,6 +90,8 @@ Print Assumptions decode_cp_snake_total.
 Print Assumptions decode_go_camel_total.
 Print Assumptions decode_go_tags_total.
 Print Assumptions extract_initialisms_terminates.
+Print Assumptions encode_then_decode_total.
+Print Assumptions pipeline_total.
 Print Assumptions parse_number_int_total.
 Print Assumptions parse_number_uint_total.
 Print Assumptions signed_slice_total.
